@@ -12,6 +12,8 @@
 (*         indices GoodCentres(shape, mask, r, t) (the property does not   *)
 (*         fix their order) and neighbour list i is exactly the            *)
 (*         searchlight of centre i, each voxel once.                       *)
+(*   volraise : get_volume_searchlight raised; explained only when no      *)
+(*         centre qualifies (the one unsupported class).                   *)
 (* One behaviour per trace id; [accept |-> tid] is printed after the last  *)
 (* event, [reject |-> tid, l |-> index, ...] at the first unexplained one. *)
 (***************************************************************************)
@@ -24,12 +26,15 @@ ExpNeigh(e, k) == LinOf(e.shape, Neighbours(Unravel(e.shape, k), e.rad, e.shape)
 ExpCentres(e) == GoodCentres(e.shape, ToSet(e.mask), e.rad, e.thr)
 BadLists(e) == {i \in 1..Len(e.centres) : ~(ToSet(e.neigh[i]) = ExpNeigh(e, e.centres[i]) /\ NoDup(e.neigh[i]))}
 Explains(e) ==
-  IF e.op = "nb" THEN ToSet(e.out) = Neighbours(e.centre, e.rad, e.shape) /\ NoDup(e.out)
+  IF e.op = "volraise" THEN ExpCentres(e) = <<>>      \* the call raised: explained only if NO centre qualifies
+  ELSE IF e.op = "nb" THEN ToSet(e.out) = Neighbours(e.centre, e.rad, e.shape) /\ NoDup(e.out)
   ELSE /\ ToSet(e.centres) = ToSet(ExpCentres(e)) /\ NoDup(e.centres)
        /\ Len(e.neigh) = Len(e.centres)
        /\ BadLists(e) = {}
 Diag(e) ==
-  IF e.op = "nb" THEN [op |-> "nb", centre |-> e.centre, rad |-> e.rad, shape |-> e.shape,
+  IF e.op = "volraise" THEN [op |-> "volraise", rad |-> e.rad, thr |-> e.thr, shape |-> e.shape,
+                             expected_centres |-> ExpCentres(e)]
+  ELSE IF e.op = "nb" THEN [op |-> "nb", centre |-> e.centre, rad |-> e.rad, shape |-> e.shape,
                        expected |-> SetToSortSeq(Neighbours(e.centre, e.rad, e.shape),
                                                  LAMBDA a, b : Ravel(e.shape, a) < Ravel(e.shape, b))]
   ELSE [op |-> "vol", rad |-> e.rad, thr |-> e.thr, shape |-> e.shape,
